@@ -18,10 +18,27 @@
     X(int, g_rl_ign) X(int, g_rl_asbody) X(int, g_rl_chomp) \
     X(size_t, g_rl_free_n) X(size_t, g_rl_parse_n) X(size_t, g_rl_dup_n) X(size_t, g_rl_dup_len) X(size_t, g_rl_cplt_n) X(int, g_rl_cplt_rc) X(size_t, g_rl_line_len) \
     X(int, g_rl_parse_rc) X(size_t, g_rl_buffered) \
-    X(size_t, g_rh_proc_n) X(size_t, g_rh_add_n) X(size_t, g_rh_add_pending) X(size_t, g_rh_free_n) X(size_t, g_rh_fclr_n) X(size_t, g_rh_hook_n) X(size_t, g_rh_dup_n) X(size_t, g_rh_term_n)
+    X(size_t, g_rh_proc_n) X(size_t, g_rh_add_n) X(size_t, g_rh_add_pending) X(size_t, g_rh_free_n) X(size_t, g_rh_fclr_n) X(size_t, g_rh_hook_n) X(size_t, g_rh_dup_n) X(size_t, g_rh_term_n) X(int, g_rh_fclr_rc) X(int, g_rh_hook_rc)
 /* stream offset bookkeeping of a copy loop: offset == entry + bytes read (usable in loop invariants) */
 #define RL_SOFF_INV(c) ((c)->out_stream_offset == __CPROVER_loop_entry((c)->out_stream_offset) + ((c)->out_current_read_offset - __CPROVER_loop_entry((c)->out_current_read_offset)))
 #define RL_READ_INV(c) ((c)->out_current_read_offset >= __CPROVER_loop_entry((c)->out_current_read_offset) && (c)->out_current_read_offset <= (c)->out_current_len)
 /* witness is a position of the chunk read since loop entry */
 #define RL_GK_READ(c) (gk < CHUNK_CAP && (int64_t) gk >= __CPROVER_loop_entry((c)->out_current_read_offset) && (int64_t) gk < (c)->out_current_read_offset)
+/* ---- vocabulary of the RES_HEADERS loop contract (units/sm_reshdr.py, contracts/sm_reshdr.h; must precede the real sources) ----
+ * Only the LENGTH of the pending (possibly folded) response header is modelled: NULL, the bstr header pending on entry, or the model's ONE static
+ * header object rh_hdr_obj (dfcc forbids malloc / free inside a loop contract; at most one header is pending at a time).  The POINTER is havocked by
+ * the loop contract, so the invariant pins it by equalities (rw_ok on a havocked pointer trips --pointer-primitive-check).
+ * Ghosts of that unit (sticky flags / logs, 0 on entry, written by the stub of htp_connp_res_receiver_finalize_clear and by the C model of htp_hook_run_all only):
+ *   g_rh_fclr_n / g_rh_fclr_rc   the receiver finalisation ran / what it answered;   g_rh_hook_n / g_rh_hook_rc   the RESPONSE_TRAILER hook ran / what it answered
+ * (the other reserved g_rh_* names are unused: the C10 / C05 facts inside the loop are assertions in the C models, not logs) */
+struct bstr_t; extern struct bstr_t rh_hdr_obj;
+#define RH_HBOUND ((size_t) HTP_MAX_HEADER_FOLDED + LINE_CAP)
+#define RH_HDR_INV(h) ((h) == NULL || (__CPROVER_rw_ok((h), sizeof(bstr)) && (h)->len < RH_HBOUND))
+#define RH_HDR_LOOP_INV(c) ((c)->out_header == NULL || (c)->out_header == __CPROVER_loop_entry((c)->out_header) || (c)->out_header == &rh_hdr_obj)
+#define RH_HDR_LEN_INV(c) ((c)->out_header == NULL || (c)->out_header->len < RH_HBOUND)
+/* what one pass over the line loop may write: the read side of the cursor, the consume offset (consolidate / clear / the LFCRCRLF skip), the buffer,
+ * the pending header POINTER, one transaction flag word, the two line-ending locals and the model's header object (NO ghosts) */
+#define RH_LOOP_ASSIGNS(c) (c)->out_next_byte, (c)->out_current_read_offset, (c)->out_stream_offset, (c)->out_current_consume_offset, \
+    (c)->out_buf, (c)->out_buf_size, (c)->out_header, (c)->out_tx->flags, lfcrending, endwithcr, rh_hdr_obj
+#define RH_CONSUME_INV(c) (0 <= (c)->out_current_consume_offset && (c)->out_current_consume_offset <= (c)->out_current_read_offset)
 #endif
